@@ -189,4 +189,52 @@ def SigLoop.step (rearm : Bool) (s : SigLoop) : SigEv → SigLoop
 
 def SigLoop.run (rearm : Bool) (s : SigLoop) (evs : List SigEv) : SigLoop := evs.foldl (SigLoop.step rearm) s
 
+/-! ## The metrics server (`pkg/metrics/server.go`)
+
+`NewServer` starts one goroutine running `ListenAndServe`: check "shutting down?" → bind → `Serve` (which, finding the
+server shut down, closes its listener and returns). `Stop` runs `Shutdown` (marks the server, closes the listeners
+`Serve` has registered) and — since the repair D17 — waits for that goroutine. -/
+
+/-- where the serving goroutine is -/
+inductive MPhase where
+  | start      -- not yet at ListenAndServe's shutdown check
+  | checked    -- passed the check (the server was not shutting down then), not yet bound
+  | bound      -- address bound, `Serve` not yet entered
+  | serving    -- listener registered with the server
+  | returned   -- goroutine has returned, its listener (if any) closed
+  deriving DecidableEq, Repr
+
+structure Metrics where
+  phase : MPhase := .start
+  shutdown : Bool := false      -- `Shutdown` has run
+  stopDone : Bool := false      -- `Stop` has completed
+  deriving DecidableEq, Repr
+
+inductive MEv where
+  | goroutine        -- the serving goroutine takes its next step
+  | shutdown         -- Stop's goroutine runs `Shutdown`
+  | complete         -- Stop completes
+  deriving DecidableEq, Repr
+
+def Metrics.bound (s : Metrics) : Bool := s.phase = .bound || s.phase = .serving
+
+/-- `waits = true`: Stop completes only after the serving goroutine has returned (the repaired server) -/
+def Metrics.step (waits : Bool) (s : Metrics) : MEv → Option Metrics
+  | .goroutine =>
+    match s.phase with
+    | .start => some { s with phase := if s.shutdown then .returned else .checked }
+    | .checked => some { s with phase := .bound }
+    | .bound => some { s with phase := if s.shutdown then .returned else .serving }   -- `Serve` closes the listener and returns
+    | .serving => if s.shutdown then some { s with phase := .returned } else none      -- blocked in Accept until Shutdown
+    | .returned => none
+  | .shutdown => if s.shutdown then none else some { s with shutdown := true }          -- (closes registered listeners: the goroutine's next step returns)
+  | .complete =>
+    if s.shutdown && !s.stopDone && (!waits || s.phase = .returned) then some { s with stopDone := true } else none
+
+def Metrics.run (waits : Bool) (s : Metrics) : List MEv → Option Metrics
+  | [] => some s
+  | e :: rest => match s.step waits e with
+    | some s' => s'.run waits rest
+    | none => none
+
 end Lifecycle
